@@ -70,6 +70,46 @@ def run(ck):
     if corr and not ck.violations:
         last["broken"] = "correspondence enc model vs implementation"
         ck.violation("correspondence model/implementation no longer checks (%d cases) although the output equals the spec" % corr, last, found_input=False)
+    # the size ANNOUNCED to execute_encrypt is progress information only (0 = unknown): the file must not depend on it; and a caller may have
+    # used the input stream before (size taken with fseek/ftell, a few bytes peeked and rewound): path-based driver op on REAL files
+    import os
+    al, aw = [], {}
+    picks = [c for c in cases if 0 < c.n][:: max(1, len(cases) // (10 if big else 5))][: 10 if big else 5]
+    for j, c in enumerate(picks):
+        for ann in (0, c.n + 4000, max(0, c.n - 17)):
+            cid = "an%d_%d" % (j, ann)
+            al.append("%s %s fsize=%d" % (cid, c.line(), ann))
+            aw[cid] = (c, ann)
+    ao = wv.run_lines([exe], al, env=small_env(ck))
+    asp = wv.run_lines([ck.model_driver(), "spec"], ["s%d %s" % (j, c.line()) for j, c in enumerate(picks)], env=small_env(ck))
+    for j, c in enumerate(picks):
+        pin, pout = os.path.join(ck.scratch, "real%d.in" % j), os.path.join(ck.scratch, "real%d.wenc" % j)
+        open(pin, "wb").write(c.plain)
+        al.append("rp%d encp %d %d %d %s %s %s %s" % (j, c.cm, c.hm, c.T, c.key.hex(), (c.seed or b"s").hex(), pin, pout))
+    ao.update(wv.run_lines([exe], [l for l in al if l.startswith("rp")], env=small_env(ck)))
+    for j, c in enumerate(picks):
+        want = asp.get("s%d" % j, "(no spec)")
+        ck.cov["evaluations"] += 1
+        got = "(no file)"
+        try:
+            got = "OK " + open(os.path.join(ck.scratch, "real%d.wenc" % j), "rb").read().hex()
+        except OSError:
+            pass
+        if c.seed and ao.get("rp%d" % j) == "OK -" and got != want:
+            ck.violation("encryption of a REAL file whose stream the caller had used before (size taken with fseek/ftell) differs from the documented format, n=%d cmode=%d T=%d" % (c.n, c.cm, c.T),
+                         {"class": None, "case": "encp " + c.line()[4:600], "implementation": got[:600], "spec": want[:600], "driver_flags": ck.impl_flags,
+                          "replay": "write the plaintext to a file; harness/drv.cpp: 'x encp cm hm T key seed in out' (the driver measures the size with fseek/ftell on the same stream first)"})
+            break
+    for cid, (c, ann) in aw.items():
+        j = picks.index(c)
+        head = split_impl(ao.get(cid, "(no output)"))[0]
+        ck.cov["evaluations"] += 1
+        if head != asp.get("s%d" % j):
+            ck.violation("the encrypted file depends on the size ANNOUNCED to execute_encrypt (announced %d, real %d): it differs from the documented format" % (ann, c.n),
+                         {"class": None, "case": c.line()[:2000] + " fsize=%d" % ann, "announced_size": ann, "implementation": head[:600], "spec": asp.get("s%d" % j, "")[:600], "driver_flags": ck.impl_flags,
+                          "replay": "echo 'x <case>' | harness/drv.cpp built with the flags above against /repo"})
+            break
+    dist["announced-size-varied/real-file"] = len(al)
     # the same question under SEEDED SCHEDULES of the real threads (scheduler shim): the file must be the documented one whatever
     # the interleaving of workers and I/O thread (determinism of the format; the all-schedules statement is C03's theorem)
     from props import C03
